@@ -15,7 +15,8 @@ namespace Rpyc.Props.C14
 open Rpyc.Conc.Serve
 
 /-- **The property.** In every reachable state, a client whose reply has been processed (`ready`) is not
-blocked in `poll()` or asleep on the condition. -/
+blocked in `poll()` or asleep on the condition.  (`blocked` in `poll` = nothing to read, deadline not reached,
+stream not ended, connection not closed.) -/
 def C14_statement : Prop :=
   ∀ s, Reachable s → ∀ t, inCall s t = true → (s.cells (s.loc t).seq).ready = true → blocked s t = false
 
@@ -91,8 +92,15 @@ theorem C14_counterexample_forever (d : Nat) :
   have f5 : (s.loc 1).bg = false := by
     have : (run init (witness none)).map (fun s => (s.loc 1).bg) = some false := by decide
     rw [e] at this; simpa using this
+  have f6 : s.eof = false := by
+    have : (run init (witness none)).map (fun s => s.eof) = some false := by decide
+    rw [e] at this; simpa using this
+  have f7 : s.closed = false := by
+    have : (run init (witness none)).map (fun s => s.closed) = some false := by decide
+    rw [e] at this; simpa using this
   rw [e]
-  simp [stalled, inCall, blocked, blockedInPoll, blockedOnCond, enabled, stepRun, doP0, expiredAt, f1, f2, f3, f4, f5]
+  simp [stalled, inCall, blocked, blockedInPoll, blockedOnCond, enabled, stepRun, doP0, expiredAt, f1, f2, f3, f4, f5,
+    f6, f7]
 
 /-- second shape of the same defect: the waiter tests readiness *before* the dispatch completes and takes
 the receive lock only *after* it (`w0` by the caller, then the background thread's whole `serve`, then the
